@@ -1306,7 +1306,8 @@ class ASTInsertStatement(ASTStatementHasWithClauseBase, abc.ABC):
             columns_str = "(" + ", ".join(column.source(sql_type) for column in self.columns) + ") "
         else:
             columns_str = ""
-        return (f"{insert_type_str} {table_keyword_str}{self.table_name.source(sql_type)} "
+        with_clause_str = self.with_clause.source(sql_type) + "\n" if not self.with_clause.is_empty() else ""
+        return (f"{with_clause_str}{insert_type_str} {table_keyword_str}{self.table_name.source(sql_type)} "
                 f"{partition_str}{columns_str}")
 
 
